@@ -543,7 +543,8 @@ def check_C02(sc, v, tier, seed, replay):
     jobs = []
     for i, s in enumerate(shapes):
         counts = dict(zip(("reg", "pdu", "svc", "rel", "dereg"), s))
-        scn, text = online.make_scenario(rnd, counts, opts={"det": i, "mnc_len": 2 + i % 2, "imsi_len": [15, 14, 13, 15][i % 4]})
+        scn, text = online.make_scenario(rnd, counts, opts={"det": i, "mnc_len": 2 + i % 2, "imsi_len": [15, 14, 13, 15][i % 4],
+                                                            "gnb_bits": 22 + (seed + 4 * (i + 3)) % 11})
         jobs.append(("life%02d" % i, scn, text))
     runs = online.run_many(sc, emu, jobs, parallel=8, timeout=1500)
     _online_collect(v, runs, "C02", sc)
@@ -597,7 +598,9 @@ def check_C19(sc, v, tier, seed, replay):
                 gs = [classes[0], classes[1 + pi % 2 * 3], classes[5]] if (tier == "quick" or si == 0) else [classes[pi % len(classes)]]
                 gs.append(classes[2 + pi % 2]) if tier == "quick" and pi % 3 == 0 else None
             for gi, g in enumerate(gs):
-                scn, text = online.make_scenario(random.Random(seed * 7 + si), counts, opts={"det": si},
+                # one scenario for all fault runs of a shape; the AMF's optional-IE choices rotate with the seed (seed % 3 = 2: the
+                # five-IE DownlinkNASTransport and the long InitialContextSetupRequest are the messages replaced by garbage)
+                scn, text = online.make_scenario(random.Random(seed * 7 + si), counts, opts={"det": si + seed % 3, "gnb_bits": 22 + (seed + 4 * 9) % 11},
                                                  fault={"kind": kind, "at": at, "bytes": g})
                 jobs.append(("f%d-%s%02d%s" % (si, kind, at, "abcd"[gi] if kind == "garbage" else ""), scn, text))
     runs = online.run_many(sc, emu, jobs, parallel=16, timeout=900)
@@ -959,7 +962,7 @@ def check_C18(sc, v, tier, seed, replay):
         counts = {"reg": 1 + i % 2, "pdu": 1, "svc": i % 2, "rel": 1 - i % 2, "dereg": 1}
         # run 0: two-digit MNC "0x", OP only; run 1: three-digit MNC "0xy" (numeric value below 100), OPc and OP both given and different
         s2, t2 = online.make_scenario(rnd, counts, opts={"lead0": i % 2 == 0, "det": [2, 1][i % 2] + 3 * (i // 2), "mnc_len": [2, 3][i % 2],
-                                                         "use_opc": i % 2 == 1})
+                                                         "use_opc": i % 2 == 1, "gnb_bits": 22 + (seed + 4 * (i + 7)) % 11})
         jobs.append(("wire%02d" % i, s2, t2))
     runs = online.run_many(sc, emu, jobs, parallel=8)
     _online_collect(v, runs, "C18", sc)
